@@ -2,6 +2,7 @@ import P2sh.Model.Ast
 import P2sh.Model.Heap
 import P2sh.Spec.Ops
 import P2sh.Spec.Builtins
+import P2sh.Spec.Format
 import P2sh.Gen.Builtins
 /-!
 # Reference semantics of the language (C02, C04, C05, C06, C07, C13, C23)
@@ -48,6 +49,7 @@ structure St where
   heap : Heap := {}
   clos : List RClos := []              -- closure table; `Val.clos _ _ id` has id = index + 1
   out : List String := []              -- lines written by `puts` (newest first)
+  bvars : List (String × Val) := []    -- builtin variables (NP, PL, WL, TSS, TSU) when set
 
 inductive Err where
   | rt (line : Nat)     -- runtime error raised by the construct on `line`
@@ -211,7 +213,11 @@ def evalE : Nat → Env → Expr → M (R Val)
       | some (.cap v) => pure (.val v env)
       | none =>
         if isBuiltinFn name then pure (.val (.builtin name) env)
-        else throw .unc   -- builtin variables and anything else: not covered here
+        else do
+          -- builtin variables hold what the stream loop put there (unconstrained when nothing did)
+          match lookupScope name ((← get).bvars.map fun (n, v) => (n, Bind.l v)) with
+          | some (.l v) => pure (.val v env)
+          | _ => throw .unc
     | .unary l op a => do
       match ← evalE fuel env a with
       | .jump f env => pure (.jump f env)
@@ -448,6 +454,18 @@ def callValue : Nat → Nat → Val → List Val → M Val
       let text := String.join (parts.filterMap id)
       modify fun s => { s with out := text :: s.out }
       pure .null
+    | .builtin "eprintln" => do
+      -- written to stderr: logged with the tag `E` (the reference renderer of C12 gives the text)
+      let rargs ← vargs.mapM reifyM
+      match rargs with
+      | .str fmt :: rest =>
+        match Spec.Format.render fmt rest with
+        | .text t =>
+          modify fun s => { s with out := ("\x01E" ++ t) :: s.out }
+          pure (.int (Int64.ofNat (t.utf8ByteSize + 1)))
+        | .error => throw (.rt l)
+        | .any => throw .unc
+      | _ => throw .unc
     | .builtin name => do
       let rargs ← vargs.mapM reifyM
       match Spec.Builtins.call name rargs with
